@@ -68,6 +68,7 @@ class State:
         self.range_facts = []            # (array term, lo, hi): every element of the array is within [lo, hi)
         self.assumed_calls = []          # contracts applied (for the report)
         self.unknown_calls = []
+        self.lemmas_used = []
         self.ghost = {}
 
     # ---- naming
@@ -121,13 +122,34 @@ class State:
                 return
         raise Unsupported('& with two possibly negative operands')
 
+    def quick(self, c):
+        """cheap sufficient test: c follows from the quantifier-free part of the path condition (1 s budget)"""
+        c = V.ssimplify(c)
+        if z3.is_true(c):
+            return True
+        if z3.is_false(c):
+            return False
+        key = c.get_id()
+        memo = self.__dict__.setdefault('_quick_memo', {})
+        hit = memo.get(key)
+        if hit is not None and hit[1] == len(self.qf):
+            return hit[2]
+        s2 = z3.Solver()
+        s2.set('rlimit', 2000000)        # deterministic resource bound (no wall-clock timeout: load must not change terms)
+        for a in self.qf:
+            s2.add(a)
+        s2.add(z3.Not(c))
+        r = s2.check() == z3.unsat
+        memo[key] = (c, len(self.qf), r)
+        return r
+
     def provable(self, c):
         c = V.ssimplify(c)
         if z3.is_true(c):
             return True
         # cheap attempt: quantifier-free assumptions + range facts instantiated at the array reads occurring in c
         s2 = z3.Solver()
-        s2.set('timeout', 1000)
+        s2.set('rlimit', 4000000)
         for a in self.qf:
             s2.add(a)
         if self.range_facts:
@@ -219,12 +241,13 @@ class State:
         return r != z3.unsat          # unknown counts as feasible
 
     # ---- obligations
-    def prove(self, label, claim, **meta):
+    def prove(self, label, claim, extra_pc=(), **meta):
         if isinstance(claim, bool):
             c = z3.BoolVal(claim)
         else:
             c = zbool(claim)
-        self.obligs.append(Obligation(label, list(self.pc), c, meta, len(self.trace)))
+        pc = list(self.pc) + [zbool(x) if not isinstance(x, z3.BoolRef) else x for x in extra_pc if x is not True]
+        self.obligs.append(Obligation(label, pc, c, meta, len(self.trace)))
 
     def cover(self, label):
         self.covers.add(label)
@@ -282,6 +305,7 @@ class UnitResult:
         self.solver_secs = 0.0
         self.assumed = []
         self.unknown_calls = []
+        self.lemmas_used = []
         self.inputs_decl = None
 
 
@@ -298,6 +322,8 @@ def explore(unit, make_E, max_paths=20000, shard=None):
         st.shard = shard
         V._CUR[0] = st
         V.Obj._n[0] = 0
+        from . import interp as _interp
+        _interp.reset_program_state()
         E = make_E(st)
         try:
             unit(E)
@@ -344,6 +370,9 @@ def explore(unit, make_E, max_paths=20000, shard=None):
             for a in st.unknown_calls:
                 if a not in res.unknown_calls:
                     res.unknown_calls.append(a)
+        for a in st.lemmas_used:
+            if a not in res.lemmas_used:
+                res.lemmas_used.append(a)
         if res.paths + res.aborted > max_paths:
             res.out_of_reach = 'out of reach: more than %d paths' % max_paths
             break
@@ -385,6 +414,19 @@ def discharge(o, z3_ms=10000, cvc5_ms=20000, both=False):
     s.add(z3.Not(o.claim))
     r = s.check()
     o.solver = 'z3'
+    if r == z3.unknown and time.time() - t < z3_ms / 2000.0:
+        # the quantifier engine gave up early (not a timeout): retry with other seeds before handing over to cvc5
+        for seed in (1, 2, 3):
+            s2 = z3.Solver()
+            s2.set('timeout', z3_ms)
+            s2.set('smt.random_seed', seed)
+            for c in o.pc:
+                s2.add(c)
+            s2.add(z3.Not(o.claim))
+            r = s2.check()
+            if r != z3.unknown:
+                s = s2
+                break
     if r == z3.unsat:
         o.status = 'discharged'
     elif r == z3.sat:
